@@ -171,6 +171,7 @@ def _run(case, F, site, work):
               target=case["target"])
     classes = {type(a) for a in pop}
     sink = io.StringIO()
+    resumed = None
     try:
         with instrument(classes), contextlib.redirect_stdout(sink), contextlib.redirect_stderr(sink):
             try:
@@ -212,6 +213,20 @@ def _run(case, F, site, work):
                     from agilerl.training.train_multi_agent_on_policy import train_multi_agent_on_policy
 
                     out = train_multi_agent_on_policy(env, "env", algo, pop, **kw)
+                # ---- a RESUMED run: the returned population (non-zero step counters) is trained on with a raised budget -------------
+                if case.get("resume") and loop in ("on_policy", "ma_on") and not case["evolve"] and case["target"] is None:
+                    pop1 = out[0]
+                    c1 = {token(a): a.steps[-1] for a in pop1}
+                    n1 = {token(a): len(a.steps) for a in pop1}
+                    booked1 = dict(env.train_steps_by_agent)
+                    cur = sum(c1.values()) if loop == "ma_on" else max(c1.values())
+                    budget2 = cur if case["resume"] == 2 else cur + case["evo_steps"] * (1 + case["seed"] % 2) - case["seed"] % 3
+                    kw2 = dict(kw, max_steps=budget2)
+                    if loop == "ma_on":
+                        out2 = train_multi_agent_on_policy(env, "env", algo, pop1, **kw2)
+                    else:
+                        out2 = train_on_policy(env, "env", algo, pop1, **kw2)
+                    resumed = (out2, c1, n1, booked1, budget2, cur)
             except Exception as e:  # "runs every algorithm it supports to completion on any compatible environment"
                 kind = "single_env" if E == 0 else "vector_env"
                 import traceback as _tb
@@ -235,6 +250,40 @@ def _run(case, F, site, work):
                 vec.close()
             except Exception:
                 pass
+
+    if resumed is not None:
+        (pop2, fit2), c1, n1, booked1, budget2, cur = resumed
+        G2 = len(fit2)
+        F.label("resumed-run")
+        F.label(f"loop={loop}")
+        if len(pop2) != P:
+            F.fail(f"C20/{loop}/resumed/population_size", "returned population does not have the size it was given", got=len(pop2), want=P)
+        booked = env.train_steps_by_agent
+        for a in pop2:
+            t = token(a)
+            if t in c1 and a.steps[-1] - c1[t] != booked.get(t, 0) - booked1.get(t, 0):
+                F.fail(f"C20/{loop}/resumed/step_counter_differs_from_env_steps", "in a resumed run an agent's step counter does not advance "
+                       "by the environment steps it actually took", counter_increment=a.steps[-1] - c1[t],
+                       env_steps=booked.get(t, 0) - booked1.get(t, 0))
+                break
+        summed = loop == "ma_on"
+        if all(token(a) in n1 and len(a.steps) >= n1[token(a)] - 1 + G2 for a in pop2):
+            per_gen = [[a.steps[n1[token(a)] - 1 + g] for a in pop2] for g in range(G2)]
+            met = [(sum(c) >= budget2) if summed else (max(c) >= budget2) for c in per_gen]
+            if cur >= budget2:
+                if G2 != 0:
+                    F.fail(f"C20/{loop}/resumed/ran_past_budget", "the population already met the step budget when training was resumed, "
+                           "yet further generations were trained", generations=G2, counters_before=sorted(c1.values()), max_steps=budget2)
+            else:
+                if not met or not met[-1]:
+                    F.fail(f"C20/{loop}/resumed/stopped_before_budget", "resumed training stopped although the step budget was not met",
+                           counters=per_gen[-1] if per_gen else sorted(c1.values()), max_steps=budget2)
+                if any(met[:-1]):
+                    F.fail(f"C20/{loop}/resumed/ran_past_budget", "resumed training continued after the generation in which the step "
+                           "budget (which counts the steps the agents already carry) was met", counters=per_gen, max_steps=budget2,
+                           counters_before=sorted(c1.values()))
+        F.nontrivial = {k: case[k] for k in ("loop", "algo", "obs", "envs", "pop", "learn_step", "max_steps", "evo_steps")} | {"resume": case["resume"]}
+        return
 
     # ---- accounting ----------------------------------------------------------------
     new_pop, pop_fitnesses = out
